@@ -1402,3 +1402,183 @@ pub fn aux_classes(r: &RecDesc) -> Vec<String> {
         })
         .collect()
 }
+
+// ------------------------------------------------------------------------------------------------
+// history-dependent reader state: "rich record followed by minimal record" adjacency
+
+/// The optional parts of a record that `strip` can remove.
+pub const OPTIONAL_FIELDS: [&str; 11] = ["name", "ref", "pos", "mapq", "cigar", "mate_ref", "mate_pos", "tlen", "seq", "qual", "aux"];
+
+/// `r` without the optional part `field` (one of `OPTIONAL_FIELDS`; "seq" also removes QUAL and
+/// makes the CIGAR read length irrelevant by clearing nothing else; "cigar" keeps SEQ, which is
+/// legal: without CIGAR SEQ is free). Unknown names leave the record unchanged.
+pub fn strip(r: &RecDesc, field: &str) -> RecDesc {
+    let mut s = r.clone();
+    match field {
+        "name" => s.name = None,
+        "ref" => s.ref_id = None,
+        "pos" => s.pos = None,
+        "mapq" => s.mapq = None,
+        "cigar" => s.cigar.clear(),
+        "mate_ref" => s.mate_ref_id = None,
+        "mate_pos" => s.mate_pos = None,
+        "tlen" => s.tlen = 0,
+        "seq" => {
+            s.seq.clear();
+            s.qual = None;
+        }
+        "qual" => s.qual = None,
+        "aux" => s.aux.clear(),
+        _ => {}
+    }
+    s
+}
+
+/// The record with nothing in it: `* 4 * 0 255 * * 0 0 * *`.
+pub fn minimal_record() -> RecDesc {
+    RecDesc { flags: 0x4, ..Default::default() }
+}
+
+/// A record with *every* optional part present (name, reference, POS, MAPQ, CIGAR, mate, TLEN, SEQ,
+/// QUAL, several aux fields incl. arrays). `size` scales the variable-length parts (name length,
+/// number of operations, bases, aux fields, array elements), so that "long followed by short" can
+/// be laid out. Needs a non-empty dictionary for the reference parts (otherwise they stay `None`).
+pub fn rich_record(hdr: &HeaderDesc, size: usize) -> RecDesc {
+    let size = size.max(1);
+    let rid = if hdr.sq.is_empty() { None } else { Some(hdr.sq.len() - 1) };
+    let mid = if hdr.sq.is_empty() { None } else { Some(0) };
+    let mut cigar: Vec<(u8, u32)> = vec![(b'S', 1)];
+    for j in 0..size {
+        cigar.push((b"M=X"[j % 3], 2));
+        cigar.push((b"DNIP"[j % 4], 1));
+    }
+    cigar.push((b'M', 1));
+    let mut r = RecDesc {
+        name: Some((0..(3 * size).min(254)).map(|j| b"rich:Name/0123456789"[j % 20]).collect()),
+        flags: 0x1 | 0x2 | 0x10 | 0x40,
+        ref_id: rid,
+        pos: Some(1000 + size as u64),
+        mapq: Some(42),
+        cigar,
+        mate_ref_id: mid,
+        mate_pos: Some(2000 + size as u64),
+        tlen: 300 + size as i32,
+        ..Default::default()
+    };
+    let rl = r.read_len() as usize;
+    r.seq = (0..rl).map(|j| b"ACGTNacgtRYKM"[j % 13]).collect();
+    r.qual = Some((0..rl).map(|j| (10 + j % 60) as u8).collect());
+    r.aux = vec![
+        (*b"NM", AuxDesc::U8(3)),
+        (*b"XZ", AuxDesc::Z((0..4 * size).map(|j| b"text value,"[j % 11]).collect())),
+        (*b"XB", AuxDesc::BI16((0..2 * size as i16).collect())),
+        (*b"XH", AuxDesc::H(b"CAFE".repeat(size))),
+        (*b"XF", AuxDesc::BF((0..size).map(|j| j as f32 + 0.5).collect())),
+        (*b"XA", AuxDesc::A(b'q')),
+        (*b"Xi", AuxDesc::I32(-70_000)),
+    ];
+    if size > 1 {
+        for j in 0..size.min(20) {
+            r.aux.push(([b'Y', b"abcdefghijklmnopqrst"[j]], AuxDesc::U16(300 + j as u16)));
+        }
+    }
+    r
+}
+
+/// Deterministic corpus for history-dependent reader state (reused `RecordBuf` / lazy record): for
+/// every optional part, `rich, rich-without-it, rich` (present -> missing -> present), then
+/// `rich, minimal, rich, minimal`, then long -> short -> long for every variable-length part
+/// (name, CIGAR, SEQ/QUAL, aux count, string and array lengths), then a placed read followed by an
+/// unplaced one and back. Names are made distinct by a suffix where a name is present.
+pub fn adjacency_corpus(hdr: &HeaderDesc) -> Vec<RecDesc> {
+    let mut out: Vec<RecDesc> = Vec::new();
+    let rich = rich_record(hdr, 4);
+    for f in OPTIONAL_FIELDS {
+        out.push(rich.clone());
+        out.push(strip(&rich, f));
+        out.push(rich.clone());
+    }
+    for _ in 0..2 {
+        out.push(rich.clone());
+        out.push(minimal_record());
+    }
+    // long -> short -> long, as a whole and part by part
+    let (big, small) = (rich_record(hdr, 12), rich_record(hdr, 1));
+    out.extend([big.clone(), small.clone(), big.clone()]);
+    let parts: [fn(&mut RecDesc, &RecDesc); 5] = [
+        |d, s| d.name = s.name.clone(),
+        |d, s| {
+            // fewer operations with the same read length: one M run
+            let _ = s;
+            let rl = d.read_len() as u32;
+            d.cigar = vec![(b'M', rl)];
+        },
+        |d, s| {
+            d.cigar = s.cigar.clone();
+            d.seq = s.seq.clone();
+            d.qual = s.qual.clone();
+        },
+        |d, s| d.aux = s.aux.clone(),
+        |d, _| d.aux.truncate(1),
+    ];
+    for p in parts {
+        let mut v = big.clone();
+        p(&mut v, &small);
+        out.extend([big.clone(), v, big.clone()]);
+    }
+    // everything but SEQ/QUAL missing after a rich record, and QUAL only missing
+    let mut only_seq = minimal_record();
+    only_seq.seq = b"ACG".to_vec();
+    out.extend([rich.clone(), only_seq.clone(), rich.clone()]);
+    only_seq.qual = Some(vec![1, 2, 3]);
+    out.extend([only_seq, minimal_record(), rich.clone()]);
+    // aux only
+    let mut only_aux = minimal_record();
+    only_aux.aux = vec![(*b"XZ", AuxDesc::Z(b"z".to_vec()))];
+    out.extend([rich.clone(), only_aux, minimal_record()]);
+    for (i, r) in out.iter_mut().enumerate() {
+        if let Some(n) = r.name.as_mut() {
+            let suffix = format!(".{i}");
+            n.truncate(254 - suffix.len());
+            n.extend_from_slice(suffix.as_bytes());
+        }
+    }
+    out
+}
+
+/// `n` records like `gen_record`, with deliberate adjacency: after about every 6th record a variant
+/// of it follows that lacks a random subset of its optional parts (or all of them), so that every
+/// "present -> missing" transition occurs with varied content. Under `Level::Common` the follower
+/// is an unplaced unmapped read (the consistent way of having nothing).
+pub fn gen_record_batch(rng: &mut Rng, hdr: &HeaderDesc, o: &RecOpts, n: usize) -> Vec<RecDesc> {
+    let mut out: Vec<RecDesc> = Vec::with_capacity(n);
+    while out.len() < n {
+        let r = gen_record(rng, hdr, o);
+        out.push(r.clone());
+        if out.len() < n && rng.chance(1, 6) {
+            let mut s = match rng.below(4) {
+                0 => minimal_record(),
+                _ => {
+                    let mut s = r.clone();
+                    for f in OPTIONAL_FIELDS {
+                        if rng.chance(1, 2) {
+                            s = strip(&s, f);
+                        }
+                    }
+                    s
+                }
+            };
+            if o.level == Level::Common {
+                s = RecDesc { name: r.name.clone(), flags: 0x4, mapq: Some(0), seq: r.seq.clone(), qual: r.qual.clone(), ..Default::default() };
+            } else if let Some(nm) = s.name.as_mut() {
+                // a different, shorter name
+                nm.truncate((nm.len() / 2).max(1));
+                if nm == b"*" {
+                    nm[0] = b'x';
+                }
+            }
+            out.push(s);
+        }
+    }
+    out
+}
